@@ -7,6 +7,8 @@ import (
 	"fmt"
 	"os"
 	"regexp"
+	"runtime/debug"
+	"runtime/pprof"
 	"sort"
 	"strings"
 	"sync"
@@ -54,7 +56,19 @@ func main() {
 	tags := flag.String("tags", "", "build tags")
 	trace := flag.Bool("trace", false, "trace SSA execution")
 	slog := flag.String("solver-log", "", "write the SMT-LIB dialogue of worker 0 here")
+	cpuprof := flag.String("cpuprofile", "", "write a CPU profile here")
 	flag.Parse()
+	if os.Getenv("GOGC") == "" {
+		// the SSA program is a large, static live heap: collect less often
+		debug.SetGCPercent(400)
+	}
+	if *cpuprof != "" {
+		f, err := os.Create(*cpuprof)
+		if err == nil {
+			pprof.StartCPUProfile(f)
+			defer pprof.StopCPUProfile()
+		}
+	}
 
 	t0 := time.Now()
 	cfg := &packages.Config{Mode: packages.LoadAllSyntax | packages.NeedModule, Dir: *dir, Env: os.Environ()}
@@ -219,6 +233,7 @@ func main() {
 	if len(o.Errors) > 0 && code == 0 {
 		code = 3
 	}
+	pprof.StopCPUProfile()
 	os.Exit(code)
 }
 
